@@ -551,6 +551,24 @@ impl<'w> Judge<'w> {
             } else if deltas[0] > 0 {
                 self.stats.bump("info.first_run_only_growth");
             }
+            // slow accumulation: state that grows only now and then (a shared scratch vector that
+            // doubles, a cache) is invisible to three repetitions. Every 32nd failing case is
+            // repeated in a burst; any growth of live bytes across the burst is a leak (one-time
+            // initialisation has already happened during the three repetitions above).
+            if case.idx % 32 == 0 && !(deltas[1] > 0 && deltas[2] > 0) {
+                let reps = 1500;
+                let before = alloc::live();
+                for _ in 0..reps {
+                    let o = if case.run_mem { run_mem(case, &self.w.gens, caps, tag) } else { run_stream(case, &self.w.gens, caps, tag) };
+                    drop(o);
+                }
+                let growth = alloc::live() - before;
+                self.stats.bump("c19.bursts");
+                if growth > 0 {
+                    let site = format!("{}/{}/{}", leg, level_key(&case.level), decode_path(self.w, &case.level, &chain));
+                    v.push(viol(case, "leak_accumulating", site, format!("{} live bytes accumulated over {} repetitions of the same failed decode (no growth in the first three)", growth, reps)));
+                }
+            }
             if !unique {
                 let site = format!("{}/{}/{}", leg, level_key(&case.level), decode_path(self.w, &case.level, &chain));
                 v.push(viol(case, "input_retained", site, "the input buffer is still shared after the error was dropped".into()));
